@@ -317,6 +317,13 @@ class _G:
             out += ls
             scope["idx"].append(x)
             out += self.marker(scope, ind)
+        if r.random() < 0.25:
+            # a per-iteration temporary: freed at the end of its use (the deallocation must stay behind every use of the buffer)
+            out.append(f"{ind}memref.dealloc {buf.name} : {buf.type}")
+            if buf in scope["mem"]:
+                scope["mem"].remove(buf)
+            self.features.add("dealloc-after-use")
+            self.skel.append("D")
         return out
 
     def cond(self, scope, ind, depth):
